@@ -42,7 +42,8 @@ JudgeSimplify(r) ==
         changed == in # out
     IN IF ~WellFormed(out) THEN Verdict(r.id, "REJECT", "WellFormed", 0, nontriv, changed, "")
        ELSE IF ~r.flags.compiles THEN Verdict(r.id, "REJECT", "Compiles", 0, nontriv, changed, "")
-       ELSE IF ~(FVars(out) \subseteq FVars(in)) THEN
+       ELSE IF ~(FVars(out) \subseteq FVars(in) \cup (IF r.pass = "helper" THEN HelperNames ELSE {})) THEN
+            \* (a helper may legitimately be left as a call by name: C05)
             Verdict(r.id, "REJECT", "Scoped", 0, nontriv, changed, "")
        ELSE IF \E d \in usable : EvalOn(out, d) # refs[d] THEN
             Verdict(r.id, "REJECT", "Preserve",
@@ -144,6 +145,7 @@ JudgeCtor(r) ==
 Judge(r) ==
     CASE r.pass = "simplify" -> JudgeSimplify(r)
       [] r.pass = "sugar" -> JudgeSugar(r)
+      [] r.pass = "helper" -> JudgeSimplify(r)     \* same relational clauses: Scoped, Preserve, WellFormed
       [] r.pass = "ctor" -> JudgeCtor(r)
       [] r.pass = "tofunc" -> JudgeToFunc(r)
       [] r.pass = "aggregate" -> JudgeAggregate(r)
